@@ -6,7 +6,7 @@
                                                                     (schemas.py:158-249, properties/__init__.py:420-459, openapi.py:207-330)
      (d) the reference case of response_from_data                     (parser/responses.py:96-108)
      (e) which attributes a schema reference may change (_property_from_ref's evolve call, properties/__init__.py:104-137)
-   Data that is not algorithm (which Parameter fields are copied / read, the prefix constants, the character tables of the
+   Data that is not algorithm (which fields of the parameter object are copied / read, the prefix constants, the character tables of the
    interpreter's urlsplit) comes from gen/GenParams.v, regenerated on every run.
    Model file: definitions only. Strings are lists of code points. *)
 From Coq Require Import NArith List Bool.
